@@ -163,6 +163,19 @@ def r2_refusals(ctx):
                 cands.append((r, chain))
         ctx.check(bool(cands), "C14.R2", f, f.node, f"refusal present: {what}", f"the refusal of `{what}` (a raise guarded by a test containing {needle}) is gone: such tables are silently accepted",
                   construct=f"refusal: {what}")
+        # the refusal does not depend on the row order of the table: its test (with the definitions it reads) uses no positional pick
+        # (`.last()`, `.first()`, `.iloc[..]`, `.head()`, `.tail()`, `.nth()`) of the caller's rows; `.first().index` only reads the group keys
+        import re as _re
+        POSITIONAL = _re.compile(r"\.(last|first|nth|head|tail)\((?:[^()]*)\)(?!\.index)|\.iloc\[|\.iat\[|\.values\[-?\d+\]")
+        for r, chain in cands:
+            for h, g, lab in chain:
+                if lab and all(t in g for t in toks):
+                    m_ = POSITIONAL.search(g)
+                    if m_:
+                        ctx.violation("C14.R2", f, cfg.stmt[h], f"the refusal of `{what}` reads the table by position (`{m_.group(0)}`): whether a malformed table is refused depends on the order "
+                                      "of its rows", construct=f"refusal order-independent: {what}")
+                    else:
+                        ctx.ok("C14.R2", f, cfg.stmt[h], f"refusal of {what}: no positional pick of rows", construct=f"refusal order-independent: {what}")
         # the refusal is unconditional: on the way to the raise no other test has to hold (beyond the confirmed context), and every test
         # that has to fail is itself a refusal (its branch raises)
         ctxt = CONTEXT.get(what, set())
@@ -335,6 +348,7 @@ VARIANTS = [
     V("silent-rename-event-local", ER, "df_event", "events", None, count=16),
     V("silent-rename-mask-local", "src/leaspy/io/data/dataset.py", "mask_missingvalues", "not_nan", None, count=2),
     V("unsorted-insertion", "src/leaspy/io/data/individual_data.py", "                index = bisect(self.timepoints, t)\n", "                index = len(self.timepoints)\n", "C14.R3"),
+    V("last-visit-is-last-row", "src/leaspy/io/data/joint_dataframe_data_reader.py", "        df_test = df.reset_index().groupby(\"ID\").max()\n", "        df_test = df.reset_index(\"TIME\").groupby(\"ID\").last()\n", "C14.R2"),
     V("bisect-resumes-from-last-index", "src/leaspy/io/data/individual_data.py", "                index = bisect(self.timepoints, t)\n", "                index = bisect(self.timepoints, t, lo=0 if self.timepoints is None else min(len(self.timepoints), 1))\n", "C14.R3"),
     V("mask-ignores-nan", "src/leaspy/io/data/dataset.py", "        mask = padding_mask * mask_missingvalues", "        mask = padding_mask", "C14.R3"),
 ]
